@@ -47,7 +47,7 @@ Fixpoint nodupb (l : list str) : bool :=
 (** The codemods that only edit the argument list of the selected call, and their documented token delta. *)
 Definition arg_kind (k : hkind) : bool :=
   match k with
-  | HReplace _ | HCookie | HAddArg _ _ | HSslTls _ | HPyyaml _ | HLimitReadline _ => true
+  | HReplace _ | HCookie | HAddArg _ _ | HSslTls _ | HPyyaml _ _ | HLimitReadline _ => true
   | _ => false
   end.
 Definition cookie_full : list newarg := choose_new_args [].
@@ -57,7 +57,7 @@ Definition delta_kind (k : hkind) : list tok :=
   | HCookie => delta_info cookie_full
   | HAddArg name v => TKw name :: toks v
   | HSslTls safe => delta_info (ssl_protocol safe)
-  | HPyyaml safe => TKw (S_ "Loader") :: toks safe
+  | HPyyaml _ safe => TKw (S_ "Loader") :: toks safe
   | HLimitReadline lim => toks lim
   | _ => []
   end.
@@ -71,35 +71,13 @@ Fixpoint spec_map (pre args : list arg) (info : list newarg) : list arg :=
 Definition spec_replace (args : list arg) (info : list newarg) : list arg :=
   spec_map [] args info ++ map fresh (missing args info).
 
-(** "set parameter [name] (first positional parameter when [positional]) to [v]": the argument that binds it gets the
-    value, every other argument is kept; when nothing binds it, [name=v] is appended. *)
-Definition is_plain_positional (a : arg) : bool :=
-  match kw a with None => N.eqb (star a) 0 | Some _ => false end.
-Fixpoint set_first_kw (name : str) (v : expr) (args : list arg) : option (list arg) :=
-  match args with
-  | [] => None
-  | a :: r => if kw_is name a then Some (set_value a v :: r)
-              else match set_first_kw name v r with Some r' => Some (a :: r') | None => None end
-  end.
-Definition set_param (name : str) (pos : nat) (v : expr) (args : list arg) : list arg :=
-  match set_first_kw name v args with
-  | Some r => r
-  | None =>
-      match nth_error args pos with
-      | Some a => if is_plain_positional a && forallb is_plain_positional (firstn pos args)
-                  then firstn pos args ++ set_value a v :: skipn (S pos) args
-                  else args ++ [mkArg (Some name) 0 0 0 v]
-      | None => args ++ [mkArg (Some name) 0 0 0 v]
-      end
-  end.
-
 Definition spec_call (k : hkind) (u : expr) : expr :=
   match k with
   | HReplace info => with_args u (spec_replace (args_of u) info)
   | HCookie => with_args u (spec_replace (args_of u) (choose_new_args (args_of u)))
   | HAddArg name v => with_args u (args_of u ++ [mkArg (Some name) 0 0 0 v])
   | HSslTls safe => with_args u (set_param (S_ "protocol") 0 safe (args_of u))
-  | HPyyaml safe => with_args u (set_param (S_ "Loader") 1 safe (args_of u))
+  | HPyyaml _ safe => with_args u (set_param (S_ "Loader") 1 safe (args_of u))
   | HLimitReadline lim => match args_of u with [] => with_args u [mkArg None 0 0 0 lim] | _ => u end
   | _ => on_result_found_upd k u
   end.
